@@ -97,6 +97,19 @@ def c04_one(ctx, r, mode):
         bad_at = r.randrange(0, len(seeds))
         seeds.insert(bad_at, "raw:{BASE}/bad/100%zz")          # an outlink that cannot be parsed, stored as found
     cfg = {"workers": r.choice([1, 2, 4]), "maxConcurrentAssets": r.choice([1, 2, 4]), "maxRetry": 0, "httpTimeout": 5, "warcPoolSize": r.choice([1, 2])}
+    first_pass = mode == "stop1"
+    if first_pass:
+        # the stop request arrives while a seed is between two passes: its page is captured, its requisites are not fetched yet
+        mode = "stop"
+        cfg.update(workers=1, maxConcurrentAssets=1)
+        for k in range(nseeds):
+            if len(tree["/q%d/" % k]) < 2:
+                extra = ["/q%d/x%d.png" % (k, i) for i in range(3)]
+                for i, a in enumerate(extra):
+                    site[a] = {"ctype": "image/png", "body": {"kind": "png", "size": 200, "seed": i}, "delayMs": 150}
+                tree["/q%d/" % k] += extra
+                site["/q%d/" % k]["body"]["assets"] = tree["/q%d/" % k]
+            site["/q%d/" % k]["delayMs"] = 120
     scn = {"seeds": seeds, "site": site, "cfg": cfg, "port": port, "job": "j"}
     d = tempfile.mkdtemp(prefix="verif-c04-", dir=SCRATCH)
     rp = {"domain": "e2e-restart", "scenario": scn, "mode": mode}
@@ -106,7 +119,7 @@ def c04_one(ctx, r, mode):
             rp["killAfter"] = delay
             run_one(dict(scn, stop={"when": "drain", "timeoutMs": 30000}), keep=d, kill_after=delay)
         else:
-            k = r.randrange(1, 12)
+            k = r.randrange(1, 12) if not first_pass else r.choice([1, 1, 2, 5])
             rp["stopAfterRequests"] = k
             rep1, err1 = run_one(dict(scn, stop={"when": "requests", "n": k, "extraMs": r.choice([0, 20]), "timeoutMs": 8000}), keep=d, timeout=90)
             if rep1.get("died") or rep1.get("stopPanic") or rep1.get("stopHung"):
@@ -229,8 +242,8 @@ def c04_scenarios(ctx, n=None):
         c04_malformed(ctx, _random.Random(r.randrange(1 << 30)))
         c04_ack_snapshot(ctx, _random.Random(r.randrange(1 << 30)))
         c04_ack_snapshot(ctx, _random.Random(r.randrange(1 << 30)), variant="giveup")
-    n = n if n is not None else (60 if ctx.thorough() else 4)
-    jobs = [("kill" if k % 2 == 0 else "stop", r.randrange(1 << 30)) for k in range(n)]
+    n = n if n is not None else (80 if ctx.thorough() else 8)
+    jobs = [(["kill", "stop", "stop1", "stop"][k % 4], r.randrange(1 << 30)) for k in range(n)]
     import random
     with concurrent.futures.ThreadPoolExecutor(max_workers=8) as ex:
         list(ex.map(lambda j: c04_one(ctx, random.Random(j[1]), j[0]), jobs))
